@@ -1,6 +1,7 @@
 import Lox.Drv.Common
 import Lox.Lex.Model
 import Lox.Lex.Bisim
+import Lox.Lex.BisimNG
 /-! Driver ops of the Lex vertical.
 
 `lex.run <fuel> | mode0 ; mode1 ; … | r1 w1 r2 w2 …`
@@ -11,7 +12,12 @@ import Lox.Lex.Bisim
    `<k> <k ints: expected action pairs t p t p …> <regex in prefix code>`; regex prefix code:
    `0` eps, `1 n lo1 hi1 … lon hin` class, `2 re re` seq, `3 re re` alt, `4 re` star, `5 re` non-greedy star
    answer: `ok <pairs explored>` or `fail <reason>`
-`lex.wf <mode table ints>`   answer: `ok` or `fail <reason>` -/
+`lex.bisimng …` same payload; rules containing code `5` have shortest-match semantics (C08);
+   failures caused by the known finding K2 start with `fail state q: K2 …`
+`lex.wf <mode table ints>`   answer: `ok` or `fail <reason>`
+`lex.startclean <mode table ints>`   answer: `ok` or `fail` (state 0 not accepting, no edge into 0)
+`lex.wfall mode0 ; mode1 ; …`   answer: `ok` or `fail <mode index>: <reason>` (`Lox.Lex.wfModes`: every
+   table `wfTable`, every push-mode parameter a mode index; hypothesis of `C10.decode_wf`) -/
 namespace Lox.Lex
 open Lox.Drv
 
@@ -89,6 +95,29 @@ def handle (op payload : String) : Option String :=
       | .ok n => some ("ok " ++ toString n)
       | .error e => some ("fail " ++ e)
     | _ => none
+  | "lex.bisimng" => do
+    match payload.splitOn "|" with
+    | [rules, tbl] =>
+      let rules ← ((rules.splitOn ";").filter (fun s => !s.trimAscii.toString.isEmpty)).mapM
+        fun r => parseInts r >>= parseRule
+      let tbl ← parseInts tbl
+      match bisimNGN rules tbl.toArray with
+      | .ok n => some ("ok " ++ toString n)
+      | .error e => some ("fail " ++ e)
+    | _ => none
+  | "lex.wfall" => do
+    let modes ← parseModes payload
+    if wfModes modes then some "ok"
+    else
+      let bad := (List.range modes.size).filterMap fun i =>
+        let m := modes.getD i #[]
+        if !wfTable m then some (toString i ++ ": " ++ wfWhy m)
+        else if (List.range (nStates m)).all fun q => pairsOK modes.size (rowPairs m q) then none
+        else some (toString i ++ ": push-mode parameter out of range")
+      some ("fail " ++ bad.headD "no modes")
+  | "lex.startclean" => do
+    let tbl ← parseInts payload
+    if startClean tbl.toArray then some "ok" else some "fail"
   | "lex.wf" => do
     let tbl ← parseInts payload
     if wfTable tbl.toArray then some "ok" else some ("fail " ++ wfWhy tbl.toArray)
